@@ -185,13 +185,26 @@ func vfRunReply(f []string) string {
 	// A round whose identifier token is prefixed with "h" is HELD: its exchange is started and its request read
 	// by the server, but its datagrams are sent only together with (and before) those of the next round, whose
 	// exchange is started while the held one is still waiting — two overlapping exchanges on one radiusConn.
+	// No wall-clock decides an outcome: the exchange timeout is long (a watchdog).  After the datagrams of a group a
+	// genuine exchange on the reserved identifier 255 is run; when it returns, the (sequential) read loop has
+	// consumed every datagram sent before.  An exchange whose pending entry is then still registered was not
+	// answered and never will be: that is reported as "timeout" and its slot is cleared the way exchange's own
+	// deferred cleanup does (the goroutine itself is left to its watchdog timer).  An exchange whose slot was
+	// taken over by a later exchange on the same identifier can never be answered either.
+	rc.timeout = 30 * time.Second
 	type held struct {
 		idx int
+		id  int
+		ent *pendingRequest
 		ch  chan res
 		req []byte
 		dgs []string
 	}
-	var hold *held
+	slot := func(id int) *pendingRequest {
+		rc.mu.Lock()
+		defer rc.mu.Unlock()
+		return rc.pending[byte(id)]
+	}
 	gotOf := func(rr res) string {
 		if rr.err == nil && rr.pkt != nil {
 			return vfPacketFields(rr.pkt)
@@ -200,6 +213,49 @@ func vfRunReply(f []string) string {
 		}
 		return "timeout"
 	}
+	settle := func(id int, ent *pendingRequest, ch chan res, overwritten bool) string {
+		if overwritten {
+			return "timeout"
+		}
+		rc.mu.Lock()
+		cur := rc.pending[byte(id)]
+		if cur == ent {
+			rc.pending[byte(id)] = nil
+		}
+		rc.mu.Unlock()
+		if cur == ent {
+			return "timeout"
+		}
+		select {
+		case rr := <-ch:
+			return gotOf(rr)
+		case <-time.After(5 * time.Second):
+			return "STUCK"
+		}
+	}
+	drain := func() string {
+		sp := &radius.Packet{Code: radius.CodeAccountingRequest}
+		sch := doExchange(255, sp)
+		srv.SetReadDeadline(time.Now().Add(25 * time.Second))
+		n, addr, err := srv.ReadFromUDP(buf)
+		if err != nil {
+			return "SYNCFAIL-noreq"
+		}
+		sreq := append([]byte(nil), buf[:n]...)
+		srep := []byte{5, sreq[1], 0, 20}
+		srep = append(srep, vfMD5(srep, sreq[4:20], secret)...)
+		srv.WriteToUDP(srep, addr)
+		select {
+		case sr := <-sch:
+			if sr.err != nil {
+				return "SYNCFAIL"
+			}
+		case <-time.After(25 * time.Second):
+			return "SYNCFAIL-stuck"
+		}
+		return ""
+	}
+	var hold *held
 	out = make([]string, rounds)
 	for r := 0; r < rounds; r++ {
 		isHeld := strings.HasPrefix(f[p], "h") && r+1 < rounds && hold == nil
@@ -217,16 +273,16 @@ func vfRunReply(f []string) string {
 		pkt := &radius.Packet{Code: radius.Code(code), Attributes: attrs}
 		copy(pkt.Authenticator[:], authb)
 		ch := doExchange(id, pkt)
-		srv.SetReadDeadline(time.Now().Add(3 * time.Second))
+		srv.SetReadDeadline(time.Now().Add(25 * time.Second))
 		n, addr, err := srv.ReadFromUDP(buf)
 		if err != nil {
-			rr := <-ch
-			out[r] = fmt.Sprintf("noreq:%v", rr.err != nil)
+			out[r] = "noreq:true"
 			continue
 		}
 		reqRaw := append([]byte(nil), buf[:n]...)
+		ent := slot(id) // the request is on the wire, so its pending entry is registered
 		if isHeld {
-			hold = &held{idx: r, ch: ch, req: reqRaw, dgs: dgs}
+			hold = &held{idx: r, id: id, ent: ent, ch: ch, req: reqRaw, dgs: dgs}
 			continue
 		}
 		if hold != nil {
@@ -237,28 +293,13 @@ func vfRunReply(f []string) string {
 		for _, d := range dgs {
 			srv.WriteToUDP(vfUnhex(d), addr)
 		}
-		rr := <-ch
-		out[r] = "req=" + vfHex(reqRaw) + " got=" + gotOf(rr)
+		if e := drain(); e != "" {
+			return strings.Join(out, " ; ") + " " + e
+		}
+		out[r] = "req=" + vfHex(reqRaw) + " got=" + settle(id, ent, ch, false)
 		if hold != nil {
-			hr := <-hold.ch
-			out[hold.idx] = "req=" + vfHex(hold.req) + " got=" + gotOf(hr)
+			out[hold.idx] = "req=" + vfHex(hold.req) + " got=" + settle(hold.id, hold.ent, hold.ch, hold.id == id)
 			hold = nil
-		}
-		// drain: a sync exchange on the reserved identifier 255 answered genuinely; when it returns the
-		// read loop has consumed every datagram of this round.
-		sp := &radius.Packet{Code: radius.CodeAccountingRequest}
-		sch := doExchange(255, sp)
-		srv.SetReadDeadline(time.Now().Add(3 * time.Second))
-		n, addr, err = srv.ReadFromUDP(buf)
-		if err != nil {
-			return strings.Join(out, " ; ") + " SYNCFAIL-noreq"
-		}
-		sreq := append([]byte(nil), buf[:n]...)
-		srep := []byte{5, sreq[1], 0, 20}
-		srep = append(srep, vfMD5(srep, sreq[4:20], secret)...)
-		srv.WriteToUDP(srep, addr)
-		if sr := <-sch; sr.err != nil {
-			return strings.Join(out, " ; ") + " SYNCFAIL"
 		}
 	}
 	return strings.Join(out, " ; ")
@@ -751,6 +792,18 @@ func vfBuildReply(recipe string, req []byte, secret []byte, k int) []byte {
 	return p
 }
 
+// vfServerTimeout: a server none of whose scripted datagrams can be acceptable can only time out, so its exchange
+// timeout is short; any other server gets a long one that correct code never waits for (replies arrive at once).
+func vfServerTimeout(recipes []string) time.Duration {
+	for _, r := range recipes {
+		k := strings.SplitN(r, ":", 2)[0]
+		if k != "forge" && k != "wrong" && k != "flip" && k != "otherid" && k != "badma" {
+			return 5 * time.Second
+		}
+	}
+	return 400 * time.Millisecond
+}
+
 func vfRunAuth(f []string) string {
 	secret := vfUnhex(vfKV(f[1], "secret"))
 	pw := vfKV(f[2], "pw")
@@ -762,7 +815,7 @@ func vfRunAuth(f []string) string {
 	}
 	defer srv.Close()
 	port := srv.LocalAddr().(*net.UDPAddr).Port
-	rc := newRadiusConn("127.0.0.1", port, secret, vfExchangeTimeout, netbind.Binding{})
+	rc := newRadiusConn("127.0.0.1", port, secret, vfServerTimeout(recipes), netbind.Binding{})
 	defer rc.close()
 	cfg := &Config{Retries: 1, DeadThreshold: 1000, NASIdentifier: "bng", Timeout: vfExchangeTimeout}
 	prov := &Provider{cfg: cfg, logger: logger.Get(Namespace), authConns: []*radiusConn{rc}, tier1Index: buildTier1Index(),
@@ -870,10 +923,22 @@ func vfRunFail(f []string) string {
 		}
 		sv.sock = sock
 		defer sock.Close()
-		to := vfExchangeTimeout
-		if len(sv.recipes) == 0 {
-			to = 300 * time.Millisecond // a silent server can only time out
+		// a silent server, or one whose scripted replies are all signed with a DIFFERENT secret, can only time out
+		eff := []string{}
+		for _, r := range sv.recipes {
+			k := strings.SplitN(r, ":", 2)[0]
+			for _, pre := range []string{"skma", "sk"} {
+				if strings.HasPrefix(k, pre) {
+					j, _ := strconv.Atoi(k[len(pre):])
+					if !bytes.Equal(srvs[j%len(srvs)].secret, sv.secret) {
+						r = "wrong:" // unacceptable
+					}
+					break
+				}
+			}
+			eff = append(eff, r)
 		}
+		to := vfServerTimeout(eff)
 		rc := newRadiusConn("127.0.0.1", sock.LocalAddr().(*net.UDPAddr).Port, sv.secret, to, netbind.Binding{})
 		defer rc.close()
 		rcs = append(rcs, rc)
